@@ -36,6 +36,10 @@ type LPeer struct {
 	Frag int   `json:"frag,omitempty"` // > 0: the first packet is sent as fragments of at most this many bytes
 	Bare bool  `json:"bare,omitempty"` // the first packet is a bare TLV, not an LpPacket
 	Rev  bool  `json:"rev,omitempty"`  // fragments of the first packet last first
+	// Junk > 0: before anything else the peer sends a datagram that is no packet: 1 empty, 2 one byte,
+	// 3 bytes that are no TLV, 4 a truncated LpPacket, 5 an Interest cut short. Whether the listener makes
+	// a face for such a peer is its business; it must survive, and the peer's packets must arrive.
+	Junk int `json:"junk,omitempty"`
 }
 
 type ListenerCase struct {
@@ -53,6 +57,9 @@ func genListener(t *rapid.T) ListenerCase {
 		}
 		if rapid.IntRange(0, 2).Draw(t, "frag") == 0 {
 			p.Frag = rapid.SampledFrom([]int{200, 600, 1400}).Draw(t, "mtu")
+		}
+		if rapid.IntRange(0, 3).Draw(t, "junk") == 0 {
+			p.Junk = rapid.IntRange(1, 5).Draw(t, "junkKind")
 		}
 		c.Peers = append(c.Peers, p)
 	}
@@ -104,6 +111,7 @@ type listenOutcome struct {
 	missing error // something did not arrive (real time: judged over several executions)
 	skipped string
 	frags   bool
+	junk    bool
 }
 
 func runListener(c ListenerCase, patience time.Duration) (out listenOutcome) {
@@ -218,6 +226,30 @@ func runListener(c ListenerCase, patience time.Duration) (out listenOutcome) {
 		return true
 	}) {
 		return listenOutcome{skipped: "listener-did-not-bind"}
+	}
+	junk := false
+	for i, ps := range c.Peers {
+		var j []byte
+		switch ps.Junk {
+		case 0:
+			continue
+		case 1:
+			j = []byte{}
+		case 2:
+			j = []byte{0x64}
+		case 3:
+			j = []byte{0xff, 0xff, 0xfe, 0x00}
+		case 4:
+			j = []byte{0x64, 0x20, 0x50, 0x01}
+		default:
+			j = peers[i].pkts[0][:len(peers[i].pkts[0])/2]
+		}
+		peers[i].conn.WriteToUDP(j, lisAddr)
+		junk = true
+	}
+	if junk {
+		out.junk = true
+		time.Sleep(40 * time.Millisecond) // a face made for such a datagram is up before the peer's packets follow
 	}
 	// phase 1: the first datagram of every peer, back to back; the further fragments of a fragmented first
 	// packet only once the peer's face exists (they must reach that face's own socket, not the listener)
@@ -341,12 +373,15 @@ func execListener(c ListenerCase) (res evid.Result) {
 	if o.frags {
 		res.Classes = append(res.Classes, "first-packet-fragmented")
 	}
+	if o.junk {
+		res.Classes = append(res.Classes, "a-peer-begins-with-a-datagram-that-is-no-packet")
+	}
 	res.Classes = append(res.Classes, fmt.Sprintf("peers-%d", len(c.Peers)))
 	res.NonTrivial = len(c.Peers) >= 3
 	return res
 }
 
-const ruleListener = "the real UDP listener on a loopback port; 2..6 harness peers send their first datagram (bare Interest, LpPacket or first fragment) back to back in a drawn order, then - once their on-demand face exists - the rest (1..4 Interests of 40..8100 bytes per peer); a recording forwarding thread attributes every packet to a face: the face of each peer must deliver exactly that peer's packets, byte-identical, once, and no other face anything. Real time: wrong bytes / wrong face / duplicates after one re-execution, something missing only if missing in three executions with growing patience. Non-trivial: >= 3 peers"
+const ruleListener = "the real UDP listener on a loopback port; 2..6 harness peers - some after a datagram that is no packet at all (empty, one byte, no TLV, truncated) - send their first datagram (bare Interest, LpPacket or first fragment) back to back in a drawn order, then - once their on-demand face exists - the rest (1..4 Interests of 40..8100 bytes per peer); a recording forwarding thread attributes every packet to a face: the face of each peer must deliver exactly that peer's packets, byte-identical, once, and no other face anything. Real time: wrong bytes / wrong face / duplicates after one re-execution, something missing only if missing in three executions with growing patience. Non-trivial: >= 3 peers"
 
 func TestC10UdpListener(t *testing.T) {
 	rec := evid.New("C10", "TestC10UdpListener", ruleListener)
@@ -354,3 +389,25 @@ func TestC10UdpListener(t *testing.T) {
 }
 
 func TestC10UdpListenerReplay(t *testing.T) { evid.Replay(t, "TestC10UdpListener", execListener) }
+
+// The same executor for C04: every case has peers that begin with a datagram that is no packet; the
+// listener goroutine and the process must survive it (a panic kills the test process: the driver
+// re-runs the in-flight case and reports it) and everything else must go on as usual.
+func genListenerJunk(t *rapid.T) ListenerCase {
+	c := genListener(t)
+	for i := range c.Peers {
+		if c.Peers[i].Junk == 0 && (i == 0 || rapid.Bool().Draw(t, "junkToo")) {
+			c.Peers[i].Junk = rapid.IntRange(1, 5).Draw(t, "junkKind2")
+		}
+	}
+	return c
+}
+
+const ruleListenerJunk = "C04 at the UDP listener: as TestC10UdpListener, and at least one peer begins with a datagram that is no packet (empty, one byte, not a TLV, a truncated LpPacket, half an Interest). The process and the listener must survive and every peer's packets must still be delivered by its face. Non-trivial: >= 3 peers"
+
+func TestC04UdpListener(t *testing.T) {
+	rec := evid.New("C04", "TestC04UdpListener", ruleListenerJunk)
+	evid.Check(t, rec, genListenerJunk, execListener)
+}
+
+func TestC04UdpListenerReplay(t *testing.T) { evid.Replay(t, "TestC04UdpListener", execListener) }
